@@ -10,6 +10,9 @@ pub uninterp spec fn bm_cap(b: &BytesMut) -> nat;
 pub assume_specification [bytes::BytesMut::with_capacity] (c: usize) -> (r: bytes::BytesMut) ensures bmv(&r) == Seq::<u8>::empty(), bm_cap(&r) == c;
 pub assume_specification<'a> [<bytes::BytesMut as std::convert::AsRef<[u8]>>::as_ref] (b: &'a bytes::BytesMut) -> (r: &'a [u8])
     ensures r@ == bmv(b);
+// BytesMut::truncate: keeps the first len octets (nothing happens when there are no more than that)
+pub assume_specification [bytes::BytesMut::truncate] (b: &mut bytes::BytesMut, len: usize)
+    ensures bmv(final(b)) == (if len < bmv(old(b)).len() { bmv(old(b)).take(len as int) } else { bmv(old(b)) });
 pub assume_specification [bytes::BytesMut::new] () -> (r: bytes::BytesMut) ensures bmv(&r) == Seq::<u8>::empty();
 #[verifier::external_body]
 pub fn shim_put_u8(b: &mut bytes::BytesMut, v: u8) ensures bmv(final(b)) == bmv(old(b)).push(v) { b.put_u8(v) }
